@@ -404,13 +404,15 @@ def load_baseline():
     return set(json.load(open(p))) if os.path.exists(p) else set()
 
 
-def run_property(pid, tier, obs, units, seed, level='proof', assumptions=(), trusted=(), extra=None, replayers=None, jobs=None, notes=None, sweep_family=None, always_sweep=False):
+def run_property(pid, tier, obs, units, seed, level='proof', assumptions=(), trusted=(), extra=None, replayers=None, jobs=None, notes=None, sweep_family=None, always_sweep=False, undecided_build=None):
     """lower the units, run the obligations in parallel, classify, write evidence, print VIOLATION / KNOWN-FINDING lines; returns exit code"""
     t0 = time.time()
     work = os.path.join(BUILD, 'run', pid + '-' + tier)
     shutil.rmtree(work, ignore_errors=True)
     os.makedirs(work, exist_ok=True)
     undecided = []
+    if undecided_build:      # the generator found the changed code outside what the obligations' models cover: nothing proved would mean anything
+        undecided.append(dict(id='build', reason=undecided_build)); obs = []
     for u in units:
         try:
             u.lower(work)
